@@ -277,6 +277,15 @@ func simGen(r *rand.Rand, tier string, n int) []*wire.Case {
 		s.next = "1:s100|2:a100"
 		mk("d-heal-the-dead", s)
 	}
+	{
+		s := base() // ... and by a ratio of its maximum (a different engine call), by itself and by a team mate, also after a killing hit
+		s.ckind = []int{1, 1}
+		s.cskill = []int{6, 7}
+		s.progs = append(s.progs, "_", "C.100.0+Cf.-50.0+Cs.-100.0", "Ao.2.1.9000+Co.-40.0+Co.20.0")
+		s.next = "1:s100|2:s100"
+		s.cycles = 3
+		mk("d-ratio-heal-the-dead", s)
+	}
 
 	{
 		s := base() // a hit that removes no HP does not make its attacker the killer: HP cost after a zero-damage hit
@@ -378,6 +387,9 @@ func simGen(r *rand.Rand, tier string, n int) []*wire.Case {
 			case k == 8 && canAttack:
 				return fmt.Sprintf("H%s.%d", sel(), pick(r, 100, 400, 5000))
 			case k == 9 && canAttack:
+				if r.Intn(3) == 0 { // on other units too, and as a gift (a ratio heal), also for a unit the same program has just killed
+					return fmt.Sprintf("C%s.%d.%d", sel(), pick(r, 30, 100, -30, -50, -100), pick(r, 0, 0, 1))
+				}
 				return fmt.Sprintf("C.%d.%d", pick(r, 30, 60, 100), pick(r, 0, 0, 1))
 			case k == 10 || k == 11:
 				return fmt.Sprintf("I.%d.%d.%d", r.Intn(nprogs), pick(r, prios...), r.Intn(2))
